@@ -90,6 +90,8 @@ type Lin struct {
 	seenT  map[string]bool
 	neqs   [][2]*E
 	onTrue func(at *E)
+	sub    map[string]*E // case substitution (selected if-then-else leaves)
+	cond   Ref           // condition of the case being proved (0 = unknown)
 }
 
 // resolveNeqs strengthens a != b to a strict inequality when one direction
@@ -473,6 +475,8 @@ func infeasible(cons []*lin) bool {
 
 // ---------- compiler oracle ----------
 
+var cfgGOOS, cfgGOARCH string
+
 var bceOnce struct {
 	done bool
 	res  map[string]bool // "file:line:col"
@@ -498,6 +502,12 @@ func compilerResidual(repo string) (map[string]bool, error) {
 	cmd := exec.Command("go", args...)
 	cmd.Dir = repo
 	cmd.Env = append(os.Environ(), "GOFLAGS=-mod=mod", "GOPROXY=off", "GOSUMDB=off", "GOTOOLCHAIN=local", "GOWORK=off")
+	if cfgGOARCH != "" {
+		cmd.Env = append(cmd.Env, "GOARCH="+cfgGOARCH)
+	}
+	if cfgGOOS != "" {
+		cmd.Env = append(cmd.Env, "GOOS="+cfgGOOS, "CGO_ENABLED=0")
+	}
 	out, _ := cmd.CombinedOutput()
 	re := regexp.MustCompile(`^(\S+\.go):(\d+):(\d+): Found Is(Slice)?InBounds`)
 	n := 0
@@ -692,6 +702,11 @@ func auditFunc(c *Ctx, fn *ssa.Function, resid map[string]bool) []BoundsResult {
 			continue
 		}
 		x := s.Env[st.x]
+		if x == nil {
+			if cv, ok := st.x.(*ssa.Const); ok && cv.Value != nil {
+				x = u.ConstVal(cv.Value, cv.Type())
+			}
+		}
 		var lo, hi *E
 		if st.lo != nil {
 			lo = s.Env[st.lo]
@@ -787,8 +802,9 @@ func proveSite(c *Ctx, g *Gate, s *Summary, fn *ssa.Function, rc Ref, x, lo, hi 
 	type cas struct {
 		cond      Ref
 		x, lo, hi *E
+		sub       map[string]*E
 	}
-	cases := []cas{{rc, x, lo, hi}}
+	cases := []cas{{rc, x, lo, hi, map[string]*E{}}}
 	firstIte := func(es ...*E) *E {
 		var found *E
 		for _, e := range es {
@@ -837,7 +853,12 @@ func proveSite(c *Ctx, g *Gate, s *Summary, fn *ssa.Function, rc Ref, x, lo, hi 
 					continue
 				}
 				sub := map[string]*E{it.key: leaf}
-				n := cas{cond: u.SubstBool(cc, sub), x: u.Subst(cs.x, sub)}
+				acc := map[string]*E{}
+				for k, v := range cs.sub {
+					acc[k] = u.Subst(v, sub)
+				}
+				acc[it.key] = leaf
+				n := cas{cond: u.SubstBool(cc, sub), x: u.Subst(cs.x, sub), sub: acc}
 				if cs.lo != nil {
 					n.lo = u.Subst(cs.lo, sub)
 				}
@@ -860,7 +881,7 @@ func proveSite(c *Ctx, g *Gate, s *Summary, fn *ssa.Function, rc Ref, x, lo, hi 
 	var used []string
 	var proveCase func(cs cas, cube map[int]bool) (bool, string)
 	for _, cs := range cases {
-		ok, why := proveCase0(c, g, s, fn, u, cs.cond, cs.x, cs.lo, cs.hi, isIndex, nil)
+		ok, why := proveCase0(c, g, s, fn, u, cs.cond, cs.x, cs.lo, cs.hi, isIndex, nil, cs.sub)
 		if !ok {
 			// disjunctive reach condition: prove under every cube
 			n := 0
@@ -871,7 +892,7 @@ func proveSite(c *Ctx, g *Gate, s *Summary, fn *ssa.Function, rc Ref, x, lo, hi 
 				if n > 256 || !okAll {
 					return
 				}
-				ok2, why2 := proveCase0(c, g, s, fn, u, cs.cond, cs.x, cs.lo, cs.hi, isIndex, cube)
+				ok2, why2 := proveCase0(c, g, s, fn, u, cs.cond, cs.x, cs.lo, cs.hi, isIndex, cube, cs.sub)
 				if !ok2 {
 					okAll = false
 					firstWhy = why2
@@ -892,7 +913,7 @@ func proveSite(c *Ctx, g *Gate, s *Summary, fn *ssa.Function, rc Ref, x, lo, hi 
 }
 
 // proveCase0 proves one case; with cube != nil the literals of that cube are assumed instead of the implied literals of cond.
-func proveCase0(c *Ctx, g *Gate, s *Summary, fn *ssa.Function, u *U, cond Ref, x, lo, hi *E, isIndex bool, cube map[int]bool) (bool, string) {
+func proveCase0(c *Ctx, g *Gate, s *Summary, fn *ssa.Function, u *U, cond Ref, x, lo, hi *E, isIndex bool, cube map[int]bool, sub map[string]*E) (bool, string) {
 	type casT struct {
 		cond      Ref
 		x, lo, hi *E
@@ -901,6 +922,8 @@ func proveCase0(c *Ctx, g *Gate, s *Summary, fn *ssa.Function, u *U, cond Ref, x
 	{
 		L := NewLin(u)
 		L.onTrue = func(at *E) { assumePredicate(c, g, L, at) }
+		L.sub = sub
+		L.cond = cs.cond
 		loopFacts(L, g, s, fn)
 		contractFacts(L, g, fn)
 		if cube == nil {
@@ -1006,7 +1029,21 @@ func loopFacts(L *Lin, g *Gate, s *Summary, fn *ssa.Function) {
 						inits = append(inits, v)
 					}
 				}
-				for _, init := range inits {
+				for ii, init := range inits {
+					if init != nil && len(L.sub) > 0 {
+						init = u.Subst(init, L.sub)
+						inits[ii] = init
+					}
+					for init != nil && init.Op == "ite" && L.cond != False {
+						if u.bdd.Implies(L.cond, init.B) {
+							init = init.Args[0]
+						} else if u.bdd.Implies(L.cond, u.bdd.Not(init.B)) {
+							init = init.Args[1]
+						} else {
+							break
+						}
+						inits[ii] = init
+					}
 					if init == nil || init.Op == "ite" {
 						// every leaf bounds the φ
 						if init != nil {
